@@ -53,7 +53,7 @@ theorem squeeze_renderMd (hl : Nat → Nat) : ∀ (els : List Element) (acc : St
       | table hd rows =>
         simp only [Element.blocks, List.flatMap_cons, List.flatMap_nil, List.append_nil, Block.md]
         by_cases hr : rows = []
-        · simp [hr, tableToMarkdown, squeeze]
+        · simp [hr, tableToMarkdown_nil, squeeze]
         · simp only [hr, if_false, squeeze_append, squeeze_sep, List.append_nil]
 
 /-! ### heading levels -/
